@@ -38,3 +38,208 @@ def c01(rec):
         return [{"prop": "C01", "status": "mismatch", "clause": "core_incomplete",
                  "detail": "result is lazy %s" % type(r).__name__}]
     return [{"prop": "C01", "status": st, "clause": cl, "detail": det}]
+
+
+# ---------------------------------------------------------------------------
+# shared helpers
+
+def _verdict(prop, st, cl=None, det=None, **kw):
+    d = {"prop": prop, "status": st, "clause": cl, "detail": det}
+    d.update(kw)
+    return d
+
+
+def _decl_check(r, exp, prop, what):
+    """declared inputs / output of a lazily built term equal the typing rules (as maps)"""
+    bad = compare.check_inputs_exact(r, exp)
+    if bad:
+        return _verdict(prop, "mismatch", what + "_" + bad,
+                        {"got": [[k, str(v)] for k, v in r.inputs.items()], "want": exp["ins"]})
+    if not compare.output_matches(r, exp):
+        return _verdict(prop, "mismatch", what + "_output", {"got": str(r.output), "want": exp["out"]})
+    return None
+
+
+def _eval_check(r, exp, prop, what, need_output=True):
+    """an evaluated result: same output domain, inputs subset, same values"""
+    if isinstance(r, Funsor) and need_output and not compare.output_matches(r, exp):
+        if isinstance(r, (Tensor, Number)) or True:
+            return _verdict(prop, "mismatch", what + "_output", {"got": str(r.output), "want": exp["out"]})
+    st, cl, det = compare.compare_values(r, exp)
+    if st == "mismatch":
+        return _verdict(prop, "mismatch", what + "_" + str(cl), det)
+    return _verdict(prop, st, cl, det)
+
+
+def _tensor_wellformed(r, prop, what):
+    """a tensor's array has exactly the declared batch and event shape; bounded ints in range"""
+    if isinstance(r, Tensor):
+        want = tuple(d.size for d in r.inputs.values()) + tuple(r.output.shape)
+        if tuple(r.data.shape) != want:
+            return _verdict(prop, "mismatch", what + "_data_shape", {"got": list(r.data.shape), "want": list(want)})
+        if isinstance(r.dtype, int) and r.data.dtype != bool and r.data.size:
+            lo, hi = r.data.min(), r.data.max()
+            if lo < 0 or hi >= r.dtype:
+                return _verdict(prop, "mismatch", what + "_bint_range", {"min": float(lo), "max": float(hi), "size": r.dtype})
+    return None
+
+
+INTERPS = {"lazy": lazy, "reflect": reflect, "normalize": normalize, "eager": eager}
+
+
+def c06(rec):
+    """C06: the lazily built term declares exactly Inputs/Output of the typing rules;
+    its evaluation has the same output domain, a subset of the inputs, well-formed data."""
+    exp = rec["exp"]
+    out = []
+    try:
+        r = _build(rec, lazy)
+    except Exception as e:  # noqa
+        return [_verdict("C06", "declined_error", type(e).__name__)]
+    bad = _decl_check(r, exp, "C06", "lazy")
+    if bad:
+        return [bad]
+    out.append(_verdict("C06", "agree"))
+    try:
+        e = funsor.reinterpret(r)
+    except Exception as ex:  # noqa
+        out.append(_verdict("C06", "declined_error", "reinterpret:" + type(ex).__name__))
+        return out
+    if isinstance(e, Funsor):
+        if not compare.output_matches(e, exp):
+            return [_verdict("C06", "mismatch", "eager_output", {"got": str(e.output), "want": exp["out"]})]
+        bad = compare.check_inputs_subset(e, exp) if isinstance(e, (Tensor, Number)) else None
+        if bad:
+            return [_verdict("C06", "mismatch", "eager_" + bad)]
+        bad = _tensor_wellformed(e, "C06", "eager")
+        if bad:
+            return [bad]
+        out.append(_verdict("C06", "agree"))
+    return out
+
+
+def c04(rec):
+    """C04: f(**subs) denotes f at the substituted values; lazily built substitution has
+    exactly the predicted inputs; evaluated one a subset (omitting only independent inputs)."""
+    exp = rec["exp"]
+    if rec["t"]["c"] != "Sub":
+        return []
+    out = []
+    for rename_as_str in (False, True):
+        if rename_as_str and not any(v["c"] == "Var" for _, v in rec["t"]["subs"]):
+            continue
+        # eager
+        try:
+            r = _build(rec, None, rename_as_str)
+            v = _eval_check(r, exp, "C04", "eager", need_output=False)
+        except Exception as e:  # noqa
+            v = _verdict("C04", "declined_error", type(e).__name__)
+        out.append(v)
+        # lazy: exact inputs, then values by probing
+        try:
+            r = _build(rec, lazy, rename_as_str)
+        except Exception as e:  # noqa
+            out.append(_verdict("C04", "declined_error", "lazy:" + type(e).__name__))
+            continue
+        bad = _decl_check(r, exp, "C04", "lazy")
+        if bad:
+            out.append(bad)
+            continue
+        out.append(_eval_check(r, exp, "C04", "lazy"))
+    return out
+
+
+def c05(rec):
+    """C05: bound names never appear among inputs and never capture, under every exact
+    interpretation (reflect, lazy, normalize, eager)."""
+    exp = rec["exp"]
+    out = []
+    want_names = {n for n, _ in exp["ins"]}
+    for iname, interp in INTERPS.items():
+        try:
+            r = _build(rec, interp)
+        except Exception as e:  # noqa
+            out.append(_verdict("C05", "declined_error", iname + ":" + type(e).__name__))
+            continue
+        if not isinstance(r, Funsor):
+            continue
+        leaked = [n for n in r.inputs if n not in want_names]
+        if leaked:
+            out.append(_verdict("C05", "mismatch", iname + "_leaked_input", {"leaked": leaked, "want": sorted(want_names)}))
+            continue
+        if iname in ("reflect", "lazy"):
+            missing = [n for n in want_names if n not in r.inputs]
+            if missing:
+                out.append(_verdict("C05", "mismatch", iname + "_missing_input", {"missing": missing}))
+                continue
+        if any("__BOUND" in n for n in r.inputs):
+            out.append(_verdict("C05", "mismatch", iname + "_bound_marker_in_inputs", list(r.inputs)))
+            continue
+        v = _eval_check(r, exp, "C05", iname, need_output=False)
+        out.append(v)
+        if iname in ("reflect", "lazy", "normalize") and v["status"] == "agree":
+            try:
+                e = funsor.reinterpret(r)
+                out.append(_eval_check(e, exp, "C05", iname + "_reinterpreted", need_output=False))
+            except Exception as ex:  # noqa
+                out.append(_verdict("C05", "declined_error", iname + "_reinterpret:" + type(ex).__name__))
+    return out
+
+
+def c03(rec):
+    """C03: building under lazy / reflect / normalize / memoize and reinterpreting eagerly, or
+    evaluating under sequential / moment_matching, equals immediate eager evaluation:
+    same output domain, same values, inputs among the expression's."""
+    from funsor.interpretations import memoize, moment_matching, sequential
+    exp = rec["exp"]
+    out = []
+    for iname in ("lazy", "reflect", "normalize"):
+        try:
+            r = _build(rec, INTERPS[iname])
+            e = funsor.reinterpret(r)
+        except Exception as ex:  # noqa
+            out.append(_verdict("C03", "declined_error", iname + ":" + type(ex).__name__))
+            continue
+        out.append(_eval_check(e, exp, "C03", iname + "_then_eager"))
+    for iname, interp in (("sequential", sequential), ("moment_matching", moment_matching)):
+        try:
+            r = _build(rec, interp)
+        except Exception as ex:  # noqa
+            out.append(_verdict("C03", "declined_error", iname + ":" + type(ex).__name__))
+            continue
+        out.append(_eval_check(r, exp, "C03", iname))
+    # memoize: same value, and identical object for the repeated expression
+    try:
+        with memoize():
+            a = _build(rec)
+            b = _build(rec)
+        if a is not b and not (isinstance(a, Tensor) and isinstance(b, Tensor)):
+            out.append(_verdict("C03", "mismatch", "memoize_not_identical", None))
+        elif a is not b and isinstance(a, Tensor) and rec["t"]["c"] not in ("Ten", "Num", "Var", "Slice"):
+            out.append(_verdict("C03", "mismatch", "memoize_not_identical", None))
+        else:
+            out.append(_eval_check(a, exp, "C03", "memoize"))
+    except Exception as ex:  # noqa
+        out.append(_verdict("C03", "declined_error", "memoize:" + type(ex).__name__))
+    return out
+
+
+def c02(rec):
+    """C02 (recording half): run the program under the exact interpretations with the rule
+    recorder on; the firings are judged by TLC (Judge.tla) in the parent."""
+    from funsor.interpretations import sequential
+    from funsor.optimizer import apply_optimizer
+    from . import recorder
+    with recorder.RuleRecorder() as rr:
+        for interp in (None, normalize, lazy, sequential):
+            try:
+                r = _build(rec, interp)
+                if interp in (normalize, lazy):
+                    funsor.reinterpret(r)
+                if interp is lazy and isinstance(r, Funsor):
+                    apply_optimizer(r)
+            except Exception:  # noqa
+                pass
+    out = [{"status": "_event", "event": e} for e in rr.events]
+    out.append({"status": "_stats", "fired": dict(rr.fired), "skipped": dict(rr.skipped)})
+    return out
